@@ -23,7 +23,7 @@ CHECKS = {
             "DESIGN.md section 4, C03"),
     "C05": ("property-based robustness testing in an isolated, killable worker process with goroutine-leak inspection (rapid); native fuzzing in the thorough tier",
             "Generated search over valid, mutated, soup and adversarial inputs; every case must return within a deadline, not panic or kill the process, return error xor warrior, and leave no gmars goroutine behind; hangs are observable and shrinkable because the worker is a separate process; a quarter of the cases run 2..8 simultaneous assemblies; a rare class of very large FOR expansions with proportional deadline; a scaling sub-property compares n with 5n for structured families.",
-            "Time bound decided as a 5 s deadline and a 256 MiB heap cap for inputs whose own expansion estimate is <= 2*10^4 tokens (larger inputs discarded); proportionality decided by sub-checks scaling (sweep of 25 structured input families assembled at n and 5n lines, n = 12000..16000: more than 12x the time for 5x the input is a violation) and replicated (the same relation on K and 5K renamed copies of generated programs). Super-linear behaviour outside those families and below the deadline is not detected.",
+            "Time bound decided as a 5 s deadline and a 256 MiB heap cap for inputs whose own expansion estimate is <= 2*10^4 tokens (larger inputs discarded); proportionality decided by sub-checks scaling (sweep of about 40 structured input families assembled at n and 5n lines, n = 12000..16000: more than 12x the time for 5x the input is a violation) replicated (the same relation on K and 5K renamed copies of generated programs) and randomscaling (the same relation on drawn families: a drawn unit of line templates repeated n and 5n times). Super-linear behaviour outside those families and below the deadline is not detected.",
             "DESIGN.md section 4, C05"),
     "C06": ("property-based testing of a validity predicate over accepted outputs (rapid); native fuzzing in the thorough tier",
             "Generated search: valid, mutated, soup, boundary and cross-dialect inputs; whenever CompileWarrior succeeds the output must satisfy the structural predicate and, under ICWS'88, an independently written table of legal instructions.",
